@@ -569,6 +569,7 @@ func runC19(c *Ctx, r *Report) {
 	checkExitSites(c, r, "R19.8", true)
 	c19PerFileState(c, r)
 	c19Encodings(c, r)
+	c19ParserKeepsNothing(c, r)
 }
 
 func isStringType(t types.Type) bool {
@@ -956,4 +957,58 @@ func c19Encodings(c *Ctx, r *Report) {
 			fmt.Sprintf("the read path treats a file name ending in %q as %q, FindInputEncoding as %q: in-place mode decompresses such a file while reading and writes it back in another encoding", k, a[k], b[k]))
 	}
 	r.Floor("R19.9", "file-name suffixes of the read path", len(a), 3)
+}
+
+// R19.10: the command-line parser keeps nothing between calls. In-place mode
+// parses the command line anew for every file; a package-level variable that
+// the parser assigns makes the second file's parse differ from the first's
+// (a "loaded already" flag for .mlrrc would give every file after the first
+// the built-in defaults).
+func c19ParserKeepsNothing(c *Ctx, r *Report) {
+	r.Rule("R19.10", "the command-line parser keeps nothing between calls: no function of package climain stores to a package-level variable of that package — mlr -I calls ParseCommandLine once per file, and each call must see what the first saw")
+	p := c.Pkg("pkg/climain")
+	if p == nil {
+		r.Undecided("R19.10", "pkg/climain", "", "package not loaded")
+		return
+	}
+	n, bad := 0, 0
+	for _, fn := range c.ModuleFunctions() {
+		if fn.Pkg == nil || fn.Blocks == nil || fn.Pkg.Pkg != p.Types || fn.Name() == "init" {
+			continue
+		}
+		n++
+		k := 0
+		for _, b := range fn.Blocks {
+			for _, in := range b.Instrs {
+				st, ok := in.(*ssa.Store)
+				if !ok {
+					continue
+				}
+				addr := st.Addr
+				for {
+					switch x := addr.(type) {
+					case *ssa.FieldAddr:
+						addr = x.X
+						continue
+					case *ssa.IndexAddr:
+						addr = x.X
+						continue
+					}
+					break
+				}
+				g, ok := addr.(*ssa.Global)
+				if !ok || g.Pkg != fn.Pkg {
+					continue
+				}
+				k++
+				bad++
+				r.Fail("R19.10", fmt.Sprintf("%s: store to package variable %s #%d", SSAName(fn), g.Name(), k), c.Rel(st.Pos()),
+					fmt.Sprintf("%s assigns the package-level variable %s: in-place mode parses the command line once per file, and the parse of the second file then depends on what the first left behind", SSAName(fn), g.Name()))
+			}
+		}
+	}
+	if bad == 0 {
+		r.OK("R19.10", "no store to a package variable in package climain", "", fmt.Sprintf("%d functions examined", n))
+	}
+	r.Floor("R19.10", "functions of package climain examined", n, 10)
 }
